@@ -755,6 +755,10 @@ func Generate(t Tape, p *Profile) *Program {
 	fc := &fctx{}
 	n := 3 + t.Choose(p.MaxStmts)
 	var body []Stmt
+	// always-present variables, so that expressions never have to be constant-only
+	g.declare(&varInfo{name: "v0", k: kNum})
+	g.declare(&varInfo{name: "s0", k: kStr})
+	body = append(body, &Local{Names: []string{"v0", "s0"}, Exprs: []Expr{Num{float64(t.Choose(5))}, Str{"s"}}})
 	for i := 0; i < n && !g.tight(); i++ {
 		body = append(body, g.stmt(fc)...)
 	}
